@@ -1,1 +1,58 @@
-fn main() {}
+//! Harness binary for the `hook-sched` flavour: tiny-http compiled against the controllable
+//! runtime; schedules and virtual time are generated inputs.
+
+mod convsched;
+#[path = "../../vreal/src/interp.rs"]
+mod interp;
+mod pool;
+mod queue;
+mod sched;
+
+use vcore::cli::{drive, Cli};
+use vcore::runner::{make_part, Part};
+
+fn main() {
+    let cli = Cli::parse("vsched");
+    vcore::panics::install();
+    let mut parts: Vec<Part> = vec![];
+    let sched_assumptions = vec![
+        "controlled runtime: interleavings at the granularity of synchronisation operations, sequentially consistent atomics, no spurious wake-ups; notify_one wakes any one waiter; timeouts fire in deadline order at schedule-chosen moments",
+        "a deadlock report after every oracle was evaluated (a minimum-pool worker parked without timeout at teardown) is tolerated and counted as teardown-leftover",
+    ];
+    let (rule, assumptions): (&str, Vec<&str>) = match cli.property.as_str() {
+        "C08" => {
+            parts.push(make_part("sched-pool", "SCHED", cli.cases(6_000, 300_000), || pool::pool_strategy(12), |_| (), |_, c| pool::run_pool_case(c)));
+            (
+                "part sched-pool: TaskPool alone under the controlled scheduler: N=1..12 long-lived tasks (each announces itself, then blocks until all N have started), optional warm-up burst and idle phase (virtual time) before, generated arrival pattern and schedule tape; oracle: all N run at the same time (otherwise: exact deadlock report), each task body exactly once; non-trivial: N >= 5, distinct by case and executed decision trace",
+                sched_assumptions,
+            )
+        }
+        "C01" => {
+            parts.push(make_part("sched-conn", "SCHED", cli.cases(6_000, 300_000), convsched::c01_strategy, |_| (), |_, c| convsched::c01_oracle(c, &convsched::run_sched_conv(c))));
+            (
+                "part sched-conn: the real ClientConnection over an in-memory connection under the controlled scheduler: 2-5 pipelined requests, per request respond (sizes around the 1 KiB write buffer, identity and chunked) / raw writer in parts with or without flush / drop, requests grouped onto handler tasks (own task each, or several held by one task in arrival order), a generated permutation in which handlers enter their answer, generated segmentation and schedule tape; oracle: the bytes written parse into exactly one message per request, in request order, bodies byte-exact, then end-of-stream; blocked-forever = exact deadlock report; non-trivial: the order in which handlers entered their answer has >= 1 inversion; distinct by case and executed decision trace",
+                sched_assumptions,
+            )
+        }
+        "C07" => {
+            parts.push(make_part("sched-queue", "SCHED", cli.cases(8_000, 500_000), queue::c07_queue_strategy, |_| (), |_, c| queue::run_queue_case("C07", c)));
+            (
+                "part sched-queue: MessagesQueue alone under the controlled scheduler: 1-3 pusher tasks (1-4 elements each, generated yields) x 1-3 receiver tasks with generated operation lists over recv / recv_timeout(0,5,50 ms virtual) / try_recv, schedule tape; oracle: received multiset = pushed (no loss, no duplicate), wire order for a single receiver, nothing left queued; lost wake-up = exact deadlock report while main waits for the count; non-trivial: pushers+receivers >= 3 and a receiver really parked on the queue's condition variable",
+                sched_assumptions,
+            )
+        }
+        "C17" => {
+            parts.push(make_part("sched-queue", "SCHED", cli.cases(8_000, 400_000), queue::c17_queue_strategy, |_| (), |_, c| queue::run_queue_case("C17", c)));
+            parts.push(make_part("seq-model", "SCHED", cli.cases(8_000, 400_000), queue::seq_strategy, |_| (), |_, c| queue::run_seq_case(c)));
+            (
+                "part sched-queue: (a) counting: 1-4 receivers using recv() only, 0-2 pushers, u generated unblock() calls at generated moments then topped up to one per receiver: #recv errors <= #unblock calls at every return, = #receivers at the end, elements conserved and ordered; (b) mixed recv/recv_timeout/try_recv lists with unblocks in flight: conservation, try_recv performs zero waits on the condition variable; (c) timed receivers only: an empty-handed recv_timeout(T) takes >= T-1 ms and (single timer source) <= 2T of virtual time; part seq-model: single-task histories of push/unblock/try_recv/recv_timeout/recv against a reference model (FIFO of requests + count of pending unblocks): requests come out in order, an empty-handed return with a request queued uses up exactly one unblock, totals match, timed bounds exact; non-trivial: an unblock issued and a receiver really parked (sched-queue) / a receive executed with both a request and an unblock pending (seq-model)",
+                sched_assumptions,
+            )
+        }
+        other => {
+            eprintln!("vsched: no parts for property {}", other);
+            std::process::exit(3)
+        }
+    };
+    drive(&cli, parts, rule, &assumptions)
+}
